@@ -29,6 +29,13 @@ import (
 
 var plain = []string{"a", "b", "c", "d", "f", "g"}
 
+// legal names that merely CONTAIN dots: the host takes them, so must ufs
+var dotted = []string{"notes..txt", "..hidden", "v1..", "a...b", "...", ".a", "a.", "x..y", "..."}
+
+// anames of Tattach: ufs exports one tree, whatever is asked for
+var anames = []string{"", "", "", "/", "sub", "/sub", "a", "a/b", "..", "../outside", "sub/../..", "/..", "a/../../..",
+	"../..", "a/..", "./..", "..\\outside", "outside", "a\x00b", strings.Repeat("../", 30), strings.Repeat("A", 5000)}
+
 func hostile(rng *prng.R, depthHint int) string {
 	switch rng.Intn(30) {
 	case 0:
@@ -101,6 +108,9 @@ func name(rng *prng.R, hostilePct, depth int) (string, bool) {
 	if rng.Intn(100) < hostilePct {
 		return hostile(rng, depth), true
 	}
+	if rng.Chance(1, 6) {
+		return dotted[rng.Intn(len(dotted))], false
+	}
 	return plain[rng.Intn(len(plain))], false
 }
 
@@ -118,7 +128,7 @@ func genOp(rng *prng.R, hostiles *int) drv.Op {
 	depth := rng.Intn(4)
 	switch k := rng.Intn(100); {
 	case k < 7:
-		return drv.Op{Kind: "attach", Fid: pickFid(rng)}
+		return drv.Op{Kind: "attach", Fid: pickFid(rng), Aname: anames[rng.Intn(len(anames))]}
 	case k < 37:
 		o := drv.Op{Kind: "walk", Fid: pickFid(rng), NewFid: pickFid(rng)}
 		if rng.Chance(1, 4) {
@@ -213,6 +223,9 @@ func genOp(rng *prng.R, hostiles *int) drv.Op {
 // setup: a session that starts with a small tree and fids at several depths.
 func setupOps(rng *prng.R) []drv.Op {
 	ops := []drv.Op{{Kind: "attach", Fid: 0}}
+	if rng.Chance(1, 3) {
+		ops[0].Aname = anames[rng.Intn(len(anames))]
+	}
 	nochange := func(name string) drv.Op {
 		return drv.Op{Kind: "wstat", Fid: 0, Name: name, WMode: 0xFFFFFFFF, WLen: ^uint64(0)}
 	}
@@ -253,6 +266,16 @@ func setupOps(rng *prng.R) []drv.Op {
 				drv.Op{Kind: "write", Fid: 3, Data: []byte("inside-c"), Off: 0})
 		}
 	}
+	if rng.Chance(1, 5) {
+		// a fid with an open file whose file is removed through another fid, then
+		// removed itself: the Tremove fails, the open file must be released all the same
+		nm := append(append([]string{}, plain...), dotted...)[rng.Intn(len(plain)+len(dotted))]
+		ops = append(ops, drv.Op{Kind: "walk", Fid: 0, NewFid: 5},
+			drv.Op{Kind: "create", Fid: 5, Name: nm, Perm: 0o644, Mode: 2},
+			drv.Op{Kind: "walk", Fid: 0, NewFid: 9, Names: []string{nm}},
+			drv.Op{Kind: "remove", Fid: 9},
+			drv.Op{Kind: "remove", Fid: 5})
+	}
 	if rng.Bool() {
 		ops = append(ops, drv.Op{Kind: "walk", Fid: 0, NewFid: 4},
 			drv.Op{Kind: "create", Fid: 4, Name: "f", Perm: 0o600, Mode: 1},
@@ -268,7 +291,7 @@ func main() {
 	}
 	r := rep.Open()
 	defer r.Close()
-	r.Rule = "each case is one ufs session of up to 70 calls on a fresh sandbox whose server is created from one of 8 equivalent spellings of the export path (clean, trailing '/', '/.', '//', 'x/../export'): a short set-up (fids at depth 0..3, or - 4 in 14 - Remove / WStat-rename of a root fid while the export is empty, from a fresh attach, a clone and a fid walked back with '..') followed by random Attach/Walk/Create/WStat/Remove/Open/Read/Write/Stat/Clunk calls on fids 0..5, 9 and NOFID; ~30% of walk names, ~35% of create names and ~65% of wstat names are hostile ('..', '.', '', embedded / and \\, absolute, ../ chains longer than the depth, NUL, 255/256/4096-byte names, names of the sandbox's own outside/ directory). A case is non-trivial when it contains at least one hostile name; distinct by canonical case text. Before the sessions: fServer.fullPath, FileRef.fullPath and path.Dir on every string of length <= 6 over {/ . a \\} for six export roots, three of them relative (exhaustive grid); and, in child processes, servers created from relative roots under a removed working directory (read-only calls, all must fail) and under a live one (must behave exactly like the absolute spelling)."
+	r.Rule = "each case is one ufs session of up to 70 calls on a fresh sandbox whose server is created from one of 8 equivalent spellings of the export path (clean, trailing '/', '/.', '//', 'x/../export'): a short set-up (fids at depth 0..3, or - 4 in 14 - Remove / WStat-rename of a root fid while the export is empty, from a fresh attach, a clone and a fid walked back with '..') followed by random Attach/Walk/Create/WStat/Remove/Open/Read/Write/Stat/Clunk calls on fids 0..5, 9 and NOFID; ~30% of walk names, ~35% of create names and ~65% of wstat names are hostile ('..', '.', '', embedded / and \\, absolute, ../ chains longer than the depth, NUL, 255/256/4096-byte names, names of the sandbox's own outside/ directory). Plain names include legal dotted ones ('notes..txt', '..hidden', '...', '.a'); Tattach carries benign and hostile anames ('..', '../outside', 'sub/../..', NUL, 5000 bytes) which ufs must ignore; one session in five removes an open fid's file through a second fid and then Tremoves the first (descriptor-leak oracle over /proc/self/fd). A case is non-trivial when it contains at least one hostile name; distinct by canonical case text. Before the sessions: fServer.fullPath, FileRef.fullPath and path.Dir on every string of length <= 6 over {/ . a \\} for six export roots, three of them relative (exhaustive grid); and, in child processes, servers created from relative roots under a removed working directory (read-only calls, all must fail) and under a live one (must behave exactly like the absolute spelling)."
 	rng := prng.New(r.Seed)
 
 	top, err := os.MkdirTemp("", "verif-c15-")
@@ -367,6 +390,21 @@ func main() {
 				escapes++
 				r.Fail("ufs."+o.Kind+".outside-read", what+": returned the content of S/outside/sentinel", c, nil)
 			}
+			nOpenFiles := 0
+			for _, f := range fids {
+				if f.Open == 2 {
+					nOpenFiles++
+				}
+				if f.Path == "/" && f.QidPath != sb.ExportIno() {
+					escapes++
+					r.Fail("ufs."+o.Kind+".root-identity", fmt.Sprintf("%s: fid %d has internal path \"/\" but is bound to host inode %d, the export root is inode %d", what, f.Fid, f.QidPath, sb.ExportIno()), c, nil)
+				}
+			}
+			if o.Kind == "clunk" || o.Kind == "remove" || o.Kind == "walk" {
+				if fds := drv.FdsInto(sb.S); len(fds) > nOpenFiles {
+					r.Fail("ufs.fd-leak", fmt.Sprintf("%s: %d descriptors into the sandbox are open but only %d fids have a file open: %v", what, len(fds), nOpenFiles, fds), c, nil)
+				}
+			}
 			for _, f := range fids {
 				if !drv.Canonical(f.Path) {
 					r.Fail("ufs."+o.Kind+".noncanonical-path", fmt.Sprintf("%s: fid %d now has internal path %q", what, f.Fid, f.Path), c, nil)
@@ -393,6 +431,9 @@ func main() {
 			}
 		}
 		sess.Close()
+		if fds := drv.FdsInto(sb.S); len(fds) > 0 && sess.Dead == "" {
+			r.Fail("ufs.fd-leak", fmt.Sprintf("after the session was stopped %d descriptors into the sandbox are still open: %v", len(fds), fds), c, nil)
+		}
 		if ev := sb.Events(); len(ev) > 0 {
 			r.Fail("ufs.stop.outside-touched", "closing the session touched: "+strings.Join(ev, "; "), c, nil)
 		}
@@ -480,6 +521,11 @@ func gridCases(r *rep.Report) {
 func hostileOp(o drv.Op) bool {
 	isPlain := func(s string) bool {
 		for _, p := range plain {
+			if s == p {
+				return true
+			}
+		}
+		for _, p := range dotted {
 			if s == p {
 				return true
 			}
